@@ -42,10 +42,35 @@ fn exec_sync(ctx: &ClientCtx, hold: &mut Holdings, i: usize, op: &Op, h: &tokio:
     h.block_on(ctx.exec(hold, i, op));
 }
 
-fn run_sync_client(ctx: ClientCtx, spec: ClientSpec, mut hold: Holdings, h: tokio::runtime::Handle) -> Holdings {
+/// Lockstep mode: the thread / pool clients meet at a spinning rendezvous before their k-th
+/// operation (for at most 2 ms), so that operations of different clients start within nanoseconds
+/// of each other instead of microseconds apart.
+pub struct Lockstep {
+    arrive: Vec<std::sync::atomic::AtomicUsize>,
+    expected: Vec<usize>,
+}
+
+impl Lockstep {
+    fn meet(&self, i: usize) {
+        use std::sync::atomic::Ordering;
+        if i >= self.arrive.len() || self.expected[i] < 2 {
+            return;
+        }
+        self.arrive[i].fetch_add(1, Ordering::AcqRel);
+        let t0 = Instant::now();
+        while self.arrive[i].load(Ordering::Acquire) < self.expected[i] && t0.elapsed() < Duration::from_millis(2) {
+            std::hint::spin_loop();
+        }
+    }
+}
+
+fn run_sync_client(ctx: ClientCtx, spec: ClientSpec, mut hold: Holdings, h: tokio::runtime::Handle, ls: Option<Arc<Lockstep>>) -> Holdings {
     for (i, cop) in spec.ops.iter().enumerate() {
         if cop.delay > 0 {
             std::thread::sleep(ctx.world.dur(cop.delay));
+        }
+        if let Some(ls) = &ls {
+            ls.meet(i);
         }
         for _ in 0..cop.yields {
             std::thread::yield_now();
@@ -93,6 +118,15 @@ pub fn run_rt(sc: &Scenario, workers: usize) -> RtResult {
         Task(tokio::task::JoinHandle<Holdings>),
         Thread(std::thread::JoinHandle<Holdings>),
     }
+    // every other scenario (by hash) runs its thread / pool clients in lockstep
+    let lockstep = if sc.hash64() % 2 == 0 {
+        let sync_clients: Vec<&ClientSpec> = sc.clients.iter().filter(|c| c.mode != ClientMode::Task).collect();
+        let max_ops = sync_clients.iter().map(|c| c.ops.len()).max().unwrap_or(0);
+        let expected: Vec<usize> = (0..max_ops).map(|k| sync_clients.iter().filter(|c| c.ops.len() > k).count()).collect();
+        Some(Arc::new(Lockstep { arrive: (0..max_ops).map(|_| std::sync::atomic::AtomicUsize::new(0)).collect(), expected }))
+    } else {
+        None
+    };
     let mut clients = vec![];
     for (c, cs) in sc.clients.iter().enumerate() {
         let mut hold = Holdings::default();
@@ -108,11 +142,13 @@ pub fn run_rt(sc: &Scenario, workers: usize) -> RtResult {
             ClientMode::Task => clients.push(Cl::Task(handle.spawn(run_client(ctx, cs2, hold)))),
             ClientMode::Pool => {
                 let h2 = handle.clone();
-                clients.push(Cl::Task(handle.spawn_blocking(move || run_sync_client(ctx, cs2, hold, h2))))
+                let ls = lockstep.clone();
+                clients.push(Cl::Task(handle.spawn_blocking(move || run_sync_client(ctx, cs2, hold, h2, ls))))
             }
             ClientMode::Thread => {
                 let h2 = handle.clone();
-                clients.push(Cl::Thread(std::thread::spawn(move || run_sync_client(ctx, cs2, hold, h2))))
+                let ls = lockstep.clone();
+                clients.push(Cl::Thread(std::thread::spawn(move || run_sync_client(ctx, cs2, hold, h2, ls))))
             }
         }
     }
